@@ -156,6 +156,34 @@ theorem tile_count_exact (lut : List LutRow) (R C th tw : Int) (ht : 1 ≤ th) (
   obtain ⟨g1, g2, _, g4, g5, g6, _, g8⟩ := stdRowCol_range_num hstd
   rw [expectedCount_eq, selected_count R C th tw ht hw lut hg r0 r1 c0 c1 g1 g2 hr g4 g5 g6 hc g8]
 
+/-- **Region assembly per channel** (segments / optical paths): in a table with several channels whose rows pass the
+uniqueness test, if the rows of channel `c` hold exactly the grid tiles (any order, interleaved with other channels
+in any way) and their frames were cut from `M`, the read for channel `c` (as issued by
+`Segmentation.get_total_pixel_matrix`, `allow_missing_combinations`) returns `M[r0-1 : r1-1, c0-1 : c1-1]`. -/
+theorem region_assembly_channel {α} (z : α) (M : Img α) (lut : List LutRow) (frames : List (Img α)) (R C th tw c : Int)
+    (ht : 1 ≤ th) (hw : 1 ≤ tw) (hu : uniqueKey (some c) lut = true)
+    (hg : IsGridTable R C th tw (chanRows (some c) lut)) (hcut : TableCutFrom M R C th tw (chanRows (some c) lut) frames)
+    (rs re cs ce : Option Int) (ai full : Bool) (r0 r1 c0 c1 : Int)
+    (hstd : stdRowColIndices rs re cs ce R C ai false = .ok (r0, r1, c0, c1)) (hr : r0 ≤ r1) (hc : c0 ≤ c1) :
+    ∃ out, readRegion z lut frames R C th tw (some c) rs re cs ce ai full true = .ok (r1 - r0, c1 - c0, out) ∧
+      ∀ i j, 0 ≤ i → i < r1 - r0 → 0 ≤ j → j < c1 - c0 → out i j = M (r0 - 1 + i) (c0 - 1 + j) := by
+  obtain ⟨g1, g2, g3, g4, g5, g6, g7, g8⟩ := stdRowCol_range_num hstd
+  obtain ⟨out, hout, hpix⟩ := readRegion_general z M lut frames R C th tw (some c) rs re cs ce ai full true ht hw hu hcut
+    r0 r1 c0 c1 hstd (Or.inl rfl) hr hc
+  refine ⟨out, hout, ?_⟩
+  intro i j hi0 hi1 hj0 hj1
+  apply (hpix i j hi0 hi1 hj0 hj1).1
+  exact grid_covers R C th tw ht hw _ hg (r0 + i) (c0 + j) (by omega) (by omega) (by omega) (by omega)
+
+/-- Two frames at the same position (and channel) make every region read fail: the library never guesses which of
+two tiles to show (e.g. an image with several optical paths or focal planes read without a channel query). -/
+theorem duplicate_positions_refused {α} (z : α) (lut : List LutRow) (frames : List (Img α)) (R C th tw : Int) (chan : Option Int)
+    (rs re cs ce : Option Int) (ai full am : Bool) (h : uniqueKey chan lut = false) :
+    readRegion z lut frames R C th tw chan rs re cs ce ai full am = .error .runtime := by
+  unfold readRegion
+  rw [h]
+  rfl
+
 /-! ## Positions implied by frame order (TILED_FULL) -/
 
 /-- **TILED_FULL.**  The table a reader derives from `iter_tiled_full_frame_data` for a single-channel image puts
